@@ -336,7 +336,9 @@ func Run(tier, replay string) {
 	t0 := time.Now()
 	phases := map[string]float64{}
 	go func() {
-		asImpl, residual = design(rep, tier)
+		if replay == "" { // a replay re-runs the recorded scenarios only
+			asImpl, residual = design(rep, tier)
+		}
 		phases["tlc_design"] = time.Since(t0).Seconds()
 		close(designDone)
 	}()
@@ -431,7 +433,9 @@ func Run(tier, replay string) {
 		for k, r := range perClass {
 			observed[k+"|"+idsLabel(sc)]++
 			note := ""
-			if !asImpl[k] {
+			if asImpl == nil {
+				note = ""
+			} else if !asImpl[k] {
 				note = " [a class the as-implemented model does not predict]"
 			} else if residual[k] && !numberedStart(sc) {
 				note = " [remains in the model with write-only-if-changed: reader that does not take the lock, next to a first print]"
